@@ -43,6 +43,25 @@ def f64_bits_to_fraction(bits):
     return sign * Fraction((1 << 52) | man) * (Fraction(2) ** (exp - 1075))
 
 
+_SNAP = {}
+
+
+def real_reading(fr):
+    """the real number a float literal stands for: a literal that is the correctly rounded value of a simple rational
+    p/q (q ≤ 10⁵, e.g. 0.1, or a named constant 1.0/6.0 evaluated at compile time) is read as that rational — the same
+    reading the expression `1.0 / 6.0` gets.  Exactly representable literals are themselves."""
+    r = _SNAP.get(fr)
+    if r is None:
+        r = fr
+        d = fr.denominator
+        if d & (d - 1) == 0 and d > (1 << 20):
+            cand = fr.limit_denominator(100000)
+            if cand != fr and float(cand) == float(fr):
+                r = cand
+        _SNAP[fr] = r
+    return r
+
+
 def is_const_term(t):
     return isinstance(t, tuple) and t and t[0] in ('fc', 'ic', 'bc')
 
@@ -310,7 +329,7 @@ class NF:
             fr = f64_bits_to_fraction(t[1])
             if fr is None:
                 return self.atom_rf(t)
-            return RF.const(fr)
+            return RF.const(real_reading(fr))
         if h == 'ic':
             return RF.const(t[1])
         if h in ('f+', 'i+'):
